@@ -24,11 +24,12 @@ import (
 type routeCase struct {
 	Level    string   `json:"level"` // "tree" (route.Tree.Match) or "flame" (Flame.ServeHTTP)
 	Routes   []string `json:"routes"`
-	Methods  []string `json:"methods,omitempty"`                 // flame level: method of each route
-	Paths    []core.B `json:"paths"`                             // request paths
-	ReqMeth  []string `json:"req_methods,omitempty"`             // flame level: method of each request
-	Continue bool     `json:"keep_tree_after_refusal,omitempty"` // the same tree keeps being used after a refused registration (no rebuild)
-	RawPath  bool     `json:"set_raw_path,omitempty"`            // flame level: requests also carry URL.RawPath (a valid, non-canonical encoding of Path, as a parsed request would)
+	Methods  []string `json:"methods,omitempty"`                               // flame level: method of each route
+	Paths    []core.B `json:"paths"`                                           // request paths
+	ReqMeth  []string `json:"req_methods,omitempty"`                           // flame level: method of each request
+	Continue bool     `json:"keep_tree_after_refusal,omitempty"`               // the same tree keeps being used after a refused registration (no rebuild)
+	Warm     bool     `json:"requests_served_between_registrations,omitempty"` // every request of the list is also served (result discarded) after each accepted registration, while the application is still being assembled: what was served earlier must not influence dispatch later
+	RawPath  bool     `json:"set_raw_path,omitempty"`                          // flame level: requests also carry URL.RawPath (a valid, non-canonical encoding of Path, as a parsed request would)
 }
 
 func init() {
@@ -93,7 +94,7 @@ func safeMatch(t route.Tree, path string, h http.Header) (leaf route.Leaf, param
 func genRouteCase(rng *rand.Rand, flameLevel bool, nPaths int) *routeCase {
 	cfg := gen.Cfg{AllowRoot: true}
 	set := gen.GenSet(rng, cfg, 10)
-	c := &routeCase{Level: "tree", Continue: rng.Intn(4) == 0, RawPath: rng.Intn(3) == 0}
+	c := &routeCase{Level: "tree", Continue: rng.Intn(4) == 0, RawPath: rng.Intn(3) == 0, Warm: rng.Intn(5) == 0}
 	for _, rt := range set {
 		if rng.Intn(3) == 0 {
 			// legal, non-canonical spelling of the blanks: the registered text differs from the canonical one
@@ -163,7 +164,7 @@ func runRouteLoop(r *core.Run, prop string) {
 	if prop == "C01" {
 		runWide(r)
 		r.Gate("distinct_nontrivial", r.NonTrivialCount(), 500)
-		for _, k := range []string{"decided:rank", "decided:registration-order", "decided:fewest-captured", "decided:final-matchall-deferred", "backtrack-needed", "not-found-agree", "flame-level-dispatches", "unknown-method-requests", "kept-tree-after-refusal", "requests-with-raw-path", "isolated-route-oracle"} {
+		for _, k := range []string{"decided:rank", "decided:registration-order", "decided:fewest-captured", "decided:final-matchall-deferred", "backtrack-needed", "not-found-agree", "flame-level-dispatches", "unknown-method-requests", "kept-tree-after-refusal", "requests-with-raw-path", "isolated-route-oracle", "served-between-registrations"} {
 			r.GateCounter(k, 1)
 		}
 		r.GateCounter("dispatches-compared", int64(nSets)*int64(nPaths)/2)
@@ -227,6 +228,12 @@ func judgeRouteCase(w *core.W, c *routeCase, prop string, parser *route.Parser) 
 			model.Commit(i, mr, forms)
 			accepted = append(accepted, accRoute{idx: i, txt: txt})
 			w.Count("routes-accepted")
+			if c.Warm {
+				for _, pb := range c.Paths {
+					_, _, _, _ = safeMatch(tree, string(pb), nil)
+				}
+				w.Count("served-between-registrations")
+			}
 			continue
 		}
 		w.Count("routes-rejected-both")
@@ -685,6 +692,15 @@ func judgeRouteCaseFlame(w *core.W, c *routeCase, prop string) {
 		if pan == nil {
 			m.Commit(i, mr, forms)
 			accepted = append(accepted, accRoute{idx: i, txt: txt, method: method})
+			if c.Warm {
+				for k, pb := range c.Paths {
+					func() {
+						defer func() { _ = recover() }()
+						f.ServeHTTP(httptest.NewRecorder(), &http.Request{Method: c.ReqMeth[k], URL: &url.URL{Path: string(pb)}, Header: http.Header{}, RequestURI: string(pb)})
+					}()
+				}
+				w.Count("served-between-registrations")
+			}
 			continue
 		}
 		if c.Continue {
